@@ -225,12 +225,19 @@ class C12(Check):
             kw['source_path'] = k['src']
         return k['g'], kw
 
+    @staticmethod
+    def _cpath(path):
+        """symbolic cache path of a plan -> path on the simulated disk (True stays True: lark derives the name itself)"""
+        return (V + 'c/' + path) if isinstance(path, str) and not path.startswith(V) else path
+
     def _new(self, keyname, **extra):
         """the way a user of this pool entry creates the parser: Lark(text), Lark(text, source_path=..) or Lark.open(file)"""
         from lark import Lark
         k = POOL[keyname]
         g, kw = self._kwargs(keyname)
         kw.update(extra)
+        if 'cache' in kw:
+            kw['cache'] = self._cpath(kw['cache'])
         self.facade.cwd = k.get('cwd')
         if k.get('open'):
             return Lark.open(k['open'], parser='lalr', **kw)
@@ -299,7 +306,7 @@ class C12(Check):
             self._reset_volatile()
             try:
                 self._new(keyname, cache='v')
-                b = bytes(d.files['v'].data)
+                b = bytes(d.files[self._cpath('v')].data)
             except Exception:
                 b = b''
             self.valid[sig] = b
@@ -353,7 +360,7 @@ class C12(Check):
 
     def _life(self, life, env, disk, out, log, li):
         """one process lifetime; returns a Violation or None"""
-        keyname, path = life['key'], life['path']
+        keyname, path = life['key'], self._cpath(life['path'])
         self._apply_env(env, disk)
         ref = self._reference(keyname, env, disk)
         self._apply_env(env, disk)
@@ -477,8 +484,8 @@ class C12(Check):
             for b in (damaged_bytes, valid):
                 d = F.Disk()
                 self._apply_env(env, d)
-                d.files['v'] = F.Inode()
-                d.files['v'].data[:] = b
+                d.files[self._cpath('v')] = F.Inode()
+                d.files[self._cpath('v')].data[:] = b
                 pr = F.Proc(d, key=None)
                 self.facade.default = pr
                 q = self._new(keyname, cache='v')
@@ -503,6 +510,8 @@ class C12(Check):
 
     def _apply_env_event(self, ev, env, disk, out):
         k = ev['kind']
+        if 'path' in ev:
+            ev = dict(ev, path=self._cpath(ev['path']))
         if k == 'content':
             ino = disk.files.get(ev['path']) if isinstance(ev['path'], str) else None
             if ino is None:
@@ -618,7 +627,7 @@ class C12(Check):
                 j = next(j for j, (a, b) in enumerate(zip(got, refs[i][1])) if a != b)
                 out.violation = Violation('behaviour-differs', proc=i, key=pr['key'], probe=j, got=got[j], want=refs[i][1][j], note='concurrent builders')
                 return
-        ino = disk.files.get(plan['path'])
+        ino = disk.files.get(self._cpath(plan['path']))
         if ino is not None and ino.mixed:
             out.count('file-left-with-mixed-writers')
             self.observed = True
